@@ -4,6 +4,7 @@ import Rare.Proofs.C13Real
 import Rare.Proofs.C13GoSort
 import Rare.Proofs.F64Parse
 import Rare.Proofs.C13Date
+import Rare.Proofs.C13Groups
 import Rare.Gen.C13
 /-!
 # C13 – Output ordering is a deterministic function of the aggregated data
@@ -943,6 +944,121 @@ theorem comparators_match_source :
         (1, "assign", "sorter = sorting.Reverse(sorter)"),
         (0, "return", "sorter, nil")] := by
   refine ⟨by decide, by decide, by decide, by decide, by decide, by decide, by decide, by decide, by decide, by decide, by decide⟩
+
+/-! ## row order of `rare reduce` (round 4)
+
+`AccumulatingGroup.Groups(sorter)` (`Rare/Model/C13Groups.lean`) with the sorter `cmd/reduce.go`
+builds (`ByContextual()`, reversed for `--sort-reverse`).  With a `--sort` expression the groups are
+ranked by (sort key under the sorter, then group key as TEXT); the stateful contextual closure is
+consulted on SORT KEYS only, never on group names. -/
+
+/-- Whenever the sorter orders the distinct sort keys, `Groups` orders the distinct groups. -/
+theorem reduce_less_order {P : Key → Prop} {less : Key → Key → Bool} (sortKey : Key → Key)
+    (h : OrderOn (fun k => ∃ g, P g ∧ sortKey g = k) less) : OrderOn P (groupsSpecLess less sortKey) :=
+  groupsSpec_orderOn sortKey h
+
+/-- **`reduce --sort <expr> [--sort-reverse]`: the row order is a function of the set of
+(group, sort key) pairs** – every arrival order (Go map iteration) gives the same sequence, namely
+the groups sorted by sort key (contextual order, reversed when asked), groups with EQUAL sort keys
+by group key text (ascending in both directions).  Hypothesis: the SORT KEYS are `ctxUniform` (all
+in one name table, or none in any – F19 otherwise); the group names are arbitrary – weekday and
+month names included, the sticky contextual closure never sees them. -/
+theorem reduce_rows_deterministic (o : Oracle) (sets : List SortSet) (rev : Bool) (sortKey : Key → Key)
+    (alg : List Key → Algo Key (List Key)) (hc : SortContract alg)
+    (groups a1 a2 : List Key) (hnd : groups.Nodup) (h1 : a1.Perm groups) (h2 : a2.Perm groups)
+    (hu : ctxUniform o sets (groups.map sortKey) = true) :
+    let less := if rev then revLess (contextualSpec o sets (groups.map sortKey)) else contextualSpec o sets (groups.map sortKey)
+    (Algo.run (groupsCmp o sets rev (some sortKey)) ({}, ()) (alg a1)).1
+      = (Algo.run (groupsCmp o sets rev (some sortKey)) ({}, ()) (alg a2)).1
+    ∧ (Algo.run (groupsCmp o sets rev (some sortKey)) ({}, ()) (alg a1)).1
+      = isort (groupsSpecLess less sortKey) groups := by
+  intro less
+  have hfS := reduceSorter_faithful o sets rev (groups.map sortKey) hu
+  have hfG : Faithful (groupsCmp o sets rev (some sortKey)) ({}, ()) (· ∈ groups) (groupsSpecLess less sortKey) :=
+    groupsCmpExpr_faithful hfS sortKey (· ∈ groups) (fun g hg => List.mem_map_of_mem hg)
+  have ho : OrderOn (· ∈ groups) (groupsSpecLess less sortKey) :=
+    groupsSpec_orderOn sortKey (reduceLess_orderOn o sets rev (groups.map sortKey) _)
+  rw [sort_faithful_result alg hc groups a1 hnd h1 hfG ho, sort_faithful_result alg hc groups a2 hnd h2 hfG ho]
+  exact ⟨rfl, rfl⟩
+
+/-- `reduce` without `--sort`: the sorter runs on the group keys themselves. -/
+theorem reduce_rows_deterministic_plain (o : Oracle) (sets : List SortSet) (rev : Bool)
+    (alg : List Key → Algo Key (List Key)) (hc : SortContract alg)
+    (groups a1 a2 : List Key) (hnd : groups.Nodup) (h1 : a1.Perm groups) (h2 : a2.Perm groups)
+    (hu : ctxUniform o sets groups = true) :
+    (Algo.run (groupsCmp o sets rev none) ({}, ()) (alg a1)).1
+      = (Algo.run (groupsCmp o sets rev none) ({}, ()) (alg a2)).1
+    ∧ (Algo.run (groupsCmp o sets rev none) ({}, ()) (alg a1)).1
+      = isort (if rev then revLess (contextualSpec o sets groups) else contextualSpec o sets groups) groups := by
+  have hfS : Faithful (groupsCmp o sets rev none) ({}, ()) (· ∈ groups) _ := reduceSorter_faithful o sets rev groups hu
+  have ho := reduceLess_orderOn o sets rev groups (· ∈ groups)
+  rw [sort_faithful_result alg hc groups a1 hnd h1 hfS ho, sort_faithful_result alg hc groups a2 hnd h2 hfS ho]
+  exact ⟨rfl, rfl⟩
+
+/-- The design that was rejected (and is what `Groups` must NOT do): breaking ties of the sort key
+through the caller's sorter, `if ka == kb { return sort(a, b) }`.  With the sticky contextual
+closure the same instance then sees group names AND sort keys; on weekday groups with counts
+`Mon=2, Fri=2, Sun=1` two arrival orders give two different row orders (kernel computation with
+Go's insertion sort), while the real comparator gives one. -/
+def groupsCmpTieBySorter {σ : Type} (sort : SCmp Key σ) (sortKey : Key → Key) : SCmp Key σ := fun s a b =>
+  if sortKey a = sortKey b then sort s a b else sort s (sortKey a) (sortKey b)
+
+def reduceWitnessKey (g : Key) : Key := if g = asc "Sun" then asc "1" else asc "2"
+
+theorem reduce_tie_by_sorter_counterexample :
+    (goInsertionSort (groupsCmpTieBySorter (reduceSorter (realOracle noDates) sortSets false) reduceWitnessKey) ({}, ())
+        [asc "Mon", asc "Fri", asc "Sun"]).1 = [asc "Sun", asc "Mon", asc "Fri"]
+    ∧ (goInsertionSort (groupsCmpTieBySorter (reduceSorter (realOracle noDates) sortSets false) reduceWitnessKey) ({}, ())
+        [asc "Sun", asc "Mon", asc "Fri"]).1 = [asc "Sun", asc "Fri", asc "Mon"]
+    ∧ (goInsertionSort (groupsCmp (realOracle noDates) sortSets false (some reduceWitnessKey)) ({}, ())
+        [asc "Mon", asc "Fri", asc "Sun"]).1 = [asc "Sun", asc "Fri", asc "Mon"]
+    ∧ (goInsertionSort (groupsCmp (realOracle noDates) sortSets false (some reduceWitnessKey)) ({}, ())
+        [asc "Sun", asc "Mon", asc "Fri"]).1 = [asc "Sun", asc "Fri", asc "Mon"]
+    ∧ ctxUniform (realOracle noDates) sortSets ([asc "Mon", asc "Fri", asc "Sun"].map reduceWitnessKey) = true := by
+  decide +kernel
+
+/-- `Groups` in the Go source is the comparator the model mirrors (regenerated skeleton). -/
+theorem reduce_groups_match_source :
+    Gen.C13.groupsSkel = [
+      (0, "assign", "ret := make([]GroupKey, 0, len(s.data))"),
+      (0, "for", "g := range s.data"),
+      (1, "assign", "ret = append(ret, g)"),
+      (0, "if", "s.sortExpr != nil"),
+      (1, "assign", "ctx := accumulatorGroupSortContext{}"),
+      (1, "assign", "sortKey := func(x GroupKey) string"),
+      (2, "assign", "ctx.groupKey = string(x)"),
+      (2, "assign", "ctx.rowLookup = func(row string) string"),
+      (3, "if", "idx, ok := s.colIdxLookup[row]; ok"),
+      (4, "return", "s.data[x][idx]"),
+      (3, "return", "\"\""),
+      (2, "return", "s.sortExpr.BuildKey(&ctx)"),
+      (1, "expr", "sorting.Sort(ret, func(a, b GroupKey) bool { ka, kb := sortKey(a), sortKey(b) if ka == kb { return a < b } return sort(ka, kb) })"),
+      (0, "else", ""),
+      (1, "expr", "sorting.SortBy(ret, sort, func(x GroupKey) string { return string(x) })"),
+      (0, "return", "ret")] := by
+  decide +kernel
+
+/-! ## `numeric`: keys that `ParseFloat` rounds to one float64 are ties, broken by text (round 4) -/
+
+/-- Integers beyond 2^53, long fractions and exponent / hex / underscore spellings that denote the same
+float64 are equal to `numeric`, so their order is the text order – from every arrival order; one
+ulp further the values differ and magnitude decides (the boundary of the tie class). -/
+theorem numeric_rounding_ties :
+    numVal (asc "9007199254740993") = numVal (asc "9007199254740992")
+    ∧ numVal (asc "9007199254740992.4") = numVal (asc "9007199254740992")
+    ∧ numVal (asc "9007199254740994") ≠ numVal (asc "9007199254740992")
+    ∧ numVal (asc "18014398509481985") = numVal (asc "18014398509481984")
+    ∧ numVal (asc "9223372036854775807") = numVal (asc "9223372036854775808")
+    ∧ numVal (asc "1e3") = numVal (asc "1000") ∧ numVal (asc "0x3e8p0") = numVal (asc "1000")
+    ∧ numVal (asc "0.1") = numVal (asc "0.1000000000000000055511151231257827")
+    ∧ numVal (asc "+0") = numVal (asc "-0") ∧ numVal (asc "0xff") = .notNum
+    ∧ byNameSmartF (asc "9007199254740992") (asc "9007199254740993") = true
+    ∧ byNameSmartF (asc "9007199254740993") (asc "9007199254740992") = false
+    ∧ isort byNameSmartF [asc "9007199254740993", asc "1e3", asc "9007199254740992", asc "1000", asc "9007199254740994"]
+        = [asc "1000", asc "1e3", asc "9007199254740992", asc "9007199254740993", asc "9007199254740994"]
+    ∧ isort byNameSmartF [asc "9007199254740994", asc "1000", asc "9007199254740992", asc "1e3", asc "9007199254740993"]
+        = [asc "1000", asc "1e3", asc "9007199254740992", asc "9007199254740993", asc "9007199254740994"] := by
+  decide +kernel
 
 /-! ## non-vacuity -/
 
